@@ -9,7 +9,7 @@ use crate::util::{guard, par_map, Kv};
 
 pub fn meta(ctx: &Ctx) -> Meta {
     Meta {
-        rule: format!("networks of depth 2..{} over count-preserving layers {{dense 4->4 (linear, ReLU), conv 1x1 / 3x3 p1, deconv 3x3 p1 on 1x2x2, feedback[dense 4]x2, max-pool 1x1, feedback[conv 1x1]x2, conv 2x2 with 4 filters (1x2x2 -> 4x1x1) and deconv 2x2 (4x1x1 -> 1x2x2)}} from a flat and a spatial input (flat<->spatial neighbours in both directions) x EVERY index pair a <= b x all 5 accumulations, exact small-integer data: predict vs the reference interpreter; connections spanning 5..7 layers of an 8-layer network; EVERY ordered pair of connect calls on the depth-3/4 networks: pairwise distinct sources and targets must be accepted, a second connection onto a used target (or from a used source) must be rejected or both must stay visible in predict; every first connection followed by a connect call with its indices the other way round (source above target): rejected, or the first connection must still act (additive accumulation, generic data: the result must not be bit-equal to that without the first connection); THREE connect calls with pairwise distinct sources and targets on a 5-layer network (quick: every ascending triple; thorough: every ordered triple) under add and mean: accepted, all visible; additive accumulation: Network::backward vs the dual-number derivative of the reference function for every single connection, every accepted pair and every triple. Non-trivial = reference output has >= 2 distinct non-zero entries", if ctx.tier.thorough() { 4 } else { 3 }),
+        rule: format!("networks of depth 2..{} over count-preserving layers {{dense 4->4 (linear, ReLU), conv 1x1 / 3x3 p1, deconv 3x3 p1 on 1x2x2, feedback[dense 4]x2, max-pool 1x1, feedback[conv 1x1]x2, conv 2x2 with 4 filters (1x2x2 -> 4x1x1) and deconv 2x2 (4x1x1 -> 1x2x2)}} from a flat and a spatial input (flat<->spatial neighbours in both directions) x EVERY index pair a <= b x all 5 accumulations, exact small-integer data: predict vs the reference interpreter; connections spanning 5..7 layers of an 8-layer network; EVERY ordered pair of connect calls on the depth-3/4 networks: pairwise distinct sources and targets must be accepted, a second connection onto a used target (or from a used source) must be rejected or both must stay visible in predict; every first connection followed by a connect call with its indices the other way round (source above target): rejected, or the first connection must still act (additive accumulation, generic data: the result must not be bit-equal to that without the first connection); THREE connect calls with pairwise distinct sources and targets on a 5-layer network (quick: every ascending triple; thorough: every ordered triple) under add and mean: accepted, all visible; additive accumulation: Network::backward vs the dual-number derivative of the reference function for every single connection, every accepted pair and every triple; every single connection, every triple and every additive pair ALSO with the network assembled in the other order - each connect call issued as soon as its two layers exist, before the remaining layers are added. Non-trivial = reference output has >= 2 distinct non-zero entries", if ctx.tier.thorough() { 4 } else { 3 }),
         bound: "depth <= 4 (5 for triples, 8 for long spans), element count 4, at most three connections".into(),
         exhaustive: true,
         assumptions: vec![
@@ -144,6 +144,18 @@ fn backward_case(net: &Net, seed: u64, case: &Kv, rep: &mut Report) {
 }
 
 pub fn check(seed: u64, case: &Kv, rep: &mut Report) {
+    // "order=eager": the same network assembled with every connect call issued as soon as its two layers exist, before
+    // the remaining layers are added
+    let eager = case.opt("order") == Some("eager");
+    crate::libnet::set_eager(eager);
+    if eager {
+        rep.count("cases_built_with_connect_calls_before_the_remaining_layers", 1);
+    }
+    check_inner(seed, case, rep);
+    crate::libnet::set_eager(false);
+}
+
+fn check_inner(seed: u64, case: &Kv, rep: &mut Report) {
     match case.get("kind") {
         "single" => {
             let net = Net::parse(case.get("net"));
@@ -311,6 +323,7 @@ pub fn cases(ctx: &Ctx) -> Vec<Kv> {
                 m.connects = vec![(a, b)];
                 m.skipacc = acc;
                 out.push(Kv::new().put("kind", "single").put("net", m.name()));
+                out.push(Kv::new().put("kind", "single").put("net", m.name()).put("order", "eager"));
             }
         }
         for &c1 in &spans {
@@ -342,6 +355,7 @@ pub fn cases(ctx: &Ctx) -> Vec<Kv> {
                         m.connects = vec![c1, c2, c3];
                         m.skipacc = acc;
                         out.push(Kv::new().put("kind", "triple").put("net", m.name()));
+                        out.push(Kv::new().put("kind", "triple").put("net", m.name()).put("order", "eager"));
                     }
                 }
             }
@@ -395,6 +409,9 @@ pub fn cases(ctx: &Ctx) -> Vec<Kv> {
                         m.connects = vec![c1, c2];
                         m.skipacc = acc;
                         out.push(Kv::new().put("kind", "pair").put("net", m.name()));
+                        if acc == Acc::Add {
+                            out.push(Kv::new().put("kind", "pair").put("net", m.name()).put("order", "eager"));
+                        }
                     }
                 }
             }
